@@ -14,6 +14,8 @@ mod vo;
 mod va;
 #[path = "../validate_certs.rs"]
 mod vcert;
+#[path = "../validate_mut2.rs"]
+mod vm2;
 use vc::*;
 use verif_harness::*;
 use vfx::*;
@@ -41,6 +43,13 @@ fn main() {
         for f in files { if let Ok(txt) = std::fs::read_to_string(&f) { for l in txt.lines() { if let Some(x) = scen_parse(l, &base, &clone_scen) { corpus.push(x) } } } }
     }
     emit_stat("corpus_scenarios", corpus.len() as u64);
+    // deterministic boundary sweep over every fixture: mint quantities at the i64 boundaries for assets
+    // the inputs do / do not hold, N-of-K thresholds, empty and one-byte addresses on every UTxO path
+    let mut n_sweep = 0u64;
+    for (name, b) in &base {
+        for (label, mut sc) in vm2::sweep(b, &mut rng) { sc.trail.push(label); corpus.push((*name, sc)); n_sweep += 1 }
+    }
+    emit_stat("boundary_sweep_scenarios", n_sweep);
     let mut n_undecodable = 0u64; let mut n_run = 0u64; let mut n_accept = 0u64; let mut n_panic = 0u64;
     let mut seen = std::collections::HashSet::new();
     let nfix = base.len() + corpus.len();
@@ -50,7 +59,7 @@ fn main() {
         let (fname, b) = if it < base.len() { (&base[it].0, &base[it].1) } else if it < nfix { (&corpus[it - base.len()].0, &corpus[it - base.len()].1) }
                          else { let k = rng.below(base.len() as u64) as usize; (&base[k].0, &base[k].1) };
         let mut s = clone_scen(b);
-        if it < nfix && it >= base.len() { s.trail.push("corpus".into()) }
+        if it < nfix && it >= base.len() { s.trail = if b.trail.is_empty() { vec!["corpus".into()] } else { b.trail.clone() } }
         if it >= nfix {
             let k = 1 + rng.below(3);
             let mut applied = 0; let mut tries = 0;
@@ -75,7 +84,7 @@ fn main() {
         n_run += 1;
         if o.e2e == Oc::Ok { n_accept += 1 }
         if !args.oracle_only {
-            let tag = if it < base.len() { format!("{}:fixture", fam) } else if it < nfix { format!("{}:corpus", fam) }
+            let tag = if it < base.len() { format!("{}:fixture", fam) } else if it < nfix { format!("{}:{}", fam, if trail.starts_with("sweep") { trail.split('(').next().unwrap_or("sweep") } else { "corpus" }) }
                       else { format!("{}:{}", fam, match &o.e2e { Oc::Ok => "mutant-accepted".to_string(), Oc::Err(c) => format!("mutant-err{}", c / 100 * 100), Oc::Panic(_) => "mutant-panic".to_string() }) };
             emit_case(&tag, &term);
         }
@@ -115,8 +124,6 @@ fn main() {
 /// else (certificates and their helpers, native-script evaluation, Byron address-root recomputation,
 /// hashing / CBOR-size helpers, script-integrity hash construction) enters the model as data.
 const NOT_MODELLED: &[&str] = &[
-    "check_certificates", "check_stake_registration", "check_stake_deregistration", "check_stake_delegation", "insert_or_err",
-    "check_pool_reg_or_update", "check_pool_retirement", "check_genesis_key_delegation", "check_mir", "to_epoch", "first_slot",
     "check_native_scripts", "eval_native_script", "redeems", "mk_spending_data", "get_data_to_verify", "mk_byron_address", "get_tx_size",
     "compute_script_integrity_hash", "cost_model_cbor", "cost_model_for_tx", "compute_script_hash", "compute_native_script_hash",
     "compute_plutus_script_hash", "compute_plutus_v1_script_hash", "compute_plutus_v2_script_hash", "compute_plutus_v3_script_hash",
